@@ -11,7 +11,7 @@
     (append target, payload length) was defined before, and every field of the struct is
     defined at the end (or overwritten by the receiver right after recv: tflush.wait). *)
 From Coq Require Import NArith String List Bool.
-From P9V Require Import Codec.Layout Codec.Frame Codec.Reuse Codec.ReuseProofs Codec.GenCheckReuse gen.CodecGen.
+From P9V Require Import Codec.Layout Codec.Frame Codec.Reuse Codec.ReuseProofs Codec.Pool Codec.PoolProofs Codec.GenCheckReuse gen.CodecGen.
 Import ListNotations.
 Open Scope N_scope.
 Open Scope list_scope.
@@ -63,20 +63,69 @@ Print Assumptions C18_registered_types_independent.
 (** the only fields left to the receiver are tflush.wait (set to nil / TagDone by handleRequest) *)
 Theorem C18_receiver_resets : gen_receiver_resets = [("tflush"%string, ["wait"%string])].
 Proof. reflexivity. Qed.
+Print Assumptions C18_receiver_resets.
 
-(** registry.put leaves no payload in a cached object *)
+(** registry.put leaves no payload in a cached object.  This holds BY CONSTRUCTION of the model's
+    [put] (Reuse.v); its tie to the source is that go2coq matches the body of registry.put
+    (SetPayload(nil) before the object is cached) and refuses anything else. *)
 Theorem C18_payload_cleared : forall g s p, gm_payload g = Some p -> get p (put g s) = Some (OBytes []).
 Proof. exact put_clears. Qed.
+Print Assumptions C18_payload_cleared.
 
-(** pooled buffers: whatever a recycled slice held, after recv it holds the received bytes *)
-Theorem C18_dirty_buffer : forall old data, recv_payload old data = data.
+(** Pooled decode buffer (Codec/Pool.v: recv's appendBuffer with a pooled slice of ARBITRARY previous
+    content, sliced to the size read from the stream, then filled by ReadFrom or recv fails): what
+    decode sees is the same for every previous content ... *)
+Theorem C18_pool_independent : forall prev prev' size stream,
+  recv_buffer prev size stream = recv_buffer prev' size stream.
+Proof. exact recv_buffer_independent. Qed.
+Print Assumptions C18_pool_independent.
+
+(** ... namely the next [size] bytes of the stream and nothing else ... *)
+Theorem C18_pool_buffer_is_stream : forall prev size stream b rest,
+  recv_buffer prev size stream = Some (b, rest) -> stream = b ++ rest /\ List.length b = size.
+Proof. exact recv_buffer_is_stream. Qed.
+
+(** ... and the statement is not vacuous: keeping the slice's capacity visible (buffer{data: data[:cap]})
+    is refuted in the same model. *)
+Theorem C18_pool_stale_refuted :
+  exists prev prev' size stream, recv_buffer_stale prev size stream <> recv_buffer_stale prev' size stream.
+Proof. exact recv_buffer_stale_refuted. Qed.
+
+(** the payload slice a recycled payloader still holds: kept if of the right length, else replaced,
+    then filled — equal to the received bytes either way (model of the branch in recv; by list reasoning) *)
+Theorem C18_payload_slice : forall old data, recv_payload old data = data.
 Proof. exact recv_payload_eq. Qed.
 
-(** Rread: the reply data are the n bytes the backend wrote into the pooled buffer
-    (Data = dataBuf[:n] after ReadAt filled dataBuf[:n]), whatever the buffer held before *)
-Theorem C18_read_data : forall buf written, firstn (List.length written) (fill buf written) = written.
-Proof. exact firstn_fill. Qed.
+(** Read replies.  Along ANY sequence of Treads on a connection, with honest backends and with lazy
+    ones that report more than they wrote, each reply carries exactly the bytes the backend produced
+    for that request followed by zeros up to the count it reported: the pooled buffer starts zeroed
+    and PayloadCleanup re-zeroes Data before every Put (inductive invariant). *)
+Theorem C18_read_data : forall msize cs b, zero_buf b -> List.length b = msize ->
+  Forall (call_ok msize) cs -> treads true b cs = map intended cs.
+Proof. exact treads_replies. Qed.
 Print Assumptions C18_read_data.
+
+(** honest backends (io.ReaderAt: all n reported bytes written): reply = the backend's bytes, with or
+    without the zeroing; *)
+Theorem C18_read_data_honest : forall cs b clean, Forall (fun c => List.length (fst c) = snd c) cs ->
+  treads clean b cs = map fst cs.
+Proof. exact treads_honest. Qed.
+
+(** without the zeroing a lazy read after a longer one returns the earlier request's bytes *)
+Theorem C18_read_data_needs_cleanup_refuted :
+  exists b cs, zero_buf b /\ Forall (call_ok (List.length b)) cs /\ treads false b cs <> map intended cs.
+Proof. exact treads_without_cleanup_refuted. Qed.
+
+(** the three places of the source the pool model stands for have the modelled shape (generated facts):
+    recv cuts the pooled slice to the exact size; tread.handle replies Data = buf[:n] for the n ReadAt
+    reported; PayloadCleanup zeroes Data before readBufPool.Put and zeros/pooled buffers have one size *)
+Theorem C18_pool_facts :
+  gen_recv_buffer_exact = true /\ gen_rread_data_is_n = true /\ gen_cleanup_zeroes_before_put = true.
+Proof. exact pool_facts. Qed.
+
+(** every list decoder stops at the first element that does not fit *)
+Theorem C18_loops_guarded : forallb (fun g => loops_guarded (gm_dec g)) gen_msgs = true.
+Proof. exact all_loops_guarded. Qed.
 
 (** hypotheses are satisfiable, and the condition is not vacuous: Twalk's program covers its
     fields; the same program without the reset does not, and then a stale name list shows *)
